@@ -1,0 +1,20 @@
+//go:build verif
+
+// Contracts for govc (see /verif/DESIGN.md). Comment-only; compiled only with -tags verif.
+
+package treplace
+
+//@ property C16
+
+// ==== configuration: verify => construct (C16) ===================================================================================
+//@ pure func cfgok(c *Config, s base.LogSchema) bool := len(c.Key) > 0 && base.hasf(s, key(c.Key)) && compiles(key(c.Pattern))
+//@ func (c *Config) VerifyConfig(schema base.LogSchema) error
+//@   property C16
+//@   requires c != nil
+//@   modifies nothing
+//@   ensures[accepted-config-is-constructible] result == nil ==> cfgok(c, schema)
+//@ func (c *Config) NewTransform(schema base.LogSchema, _ logger.Logger, _ base.LogCustomCounterRegistry) base.LogTransform
+//@   property C16
+//@   requires c != nil && cfgok(c, schema)
+//@   modifies nothing
+//@   ensures  result != nil
